@@ -192,6 +192,21 @@ fn suite(out: &mut Vec<String>) {
         out.push(st2.reset_line());
         out.push(op_line("rt", "msg", 1, len - 1, 0, 100));
     }
+    // receiver key of 4096 bits (two-byte padding length): EVERY padding length the layout can produce —
+    // the message length swept over one full period of the plain-text block size, for each RSA padding
+    // overhead (Basic128Rsa15: 512-11, OAEP-SHA1 policies: 512-42, Aes256Sha256RsaPss: 512-66)
+    for (policy, period) in [
+        (SecurityPolicy::Basic128Rsa15, 501usize),
+        (SecurityPolicy::Basic256Sha256, 470),
+        (SecurityPolicy::Aes256Sha256RsaPss, 446),
+    ] {
+        seed += 1;
+        let st = Setup { cfg: Cfg { policy, mode: MessageSecurityMode::SignAndEncrypt, has_cert: true, has_key: true, keys: true, client: seed % 2 == 0, own: 4, peer: 1, seed, init_policy: None, key_policy: None }, chan_id: 3, token_id: 4 };
+        out.push(st.reset_line());
+        for k in 0..period {
+            out.push(op_line("rt", "opn", 1, 0, 0, k));
+        }
+    }
     // receiver key of 4096 bits: the extra padding byte of OPN chunks
     {
         seed += 1;
